@@ -48,7 +48,8 @@ fn apply(g: &mut dyn DynGen, op: &Op) -> Result<Option<Out>, SutFail> {
 }
 
 fn fmt_of(x: u64) -> SnapFmt {
-    match x % 7 {
+    match x % 8 {
+        7 => SnapFmt::Toml,
         0 => SnapFmt::Bincode,
         1 => SnapFmt::Json,
         2 => SnapFmt::BincodeFramed,
@@ -103,7 +104,7 @@ impl Scenario for C11 {
             let kind = if rng.chance(1, 2) { Kind::Isaac } else { Kind::Isaac64 };
             spec.kind = Some(kind);
             spec.seed = Some(gen_seed(rng, kind));
-            spec.aux = vec![rng.below(7)];
+            spec.aux = vec![rng.below(8)];
             return spec;
         }
         spec.variant = "history".into();
@@ -125,11 +126,11 @@ impl Scenario for C11 {
         // copy (so later crash points are restores of restores)
         for _ in 0..rng.below(4) {
             let at = rng.below(ops.len() as u64 + 1) as usize;
-            ops.insert(at, Op::Snap(fmt_of(rng.below(7))));
+            ops.insert(at, Op::Snap(fmt_of(rng.below(8))));
         }
         spec.ops = ops;
         // aux[0]: format used at the enumerated (non-destructive) crash points
-        spec.aux = vec![rng.below(7)];
+        spec.aux = vec![rng.below(8)];
         if matches!(kind, Kind::Isaac | Kind::Isaac64) && rng.chance(1, 6) {
             // aux[1] = u64::MAX: all crash points; aux[2] = 1 + k: word k of the durable state is zero
             spec.aux.push(u64::MAX);
